@@ -4,7 +4,7 @@ from vlib.core import Query
 INFO = {
     "claim": "Slice: for the constant node kinds HInt, Byte, Char, Bool, SFlo, DFlo and character arrays "
              "foamFrBuffer(foamToBuffer(node)) denotes the same value for ALL payload values and the decoder consumes exactly the bytes "
-             "written; the portable re-expression of machine integers wider than 31 bits (foamSIntReduce) denotes the same value for all 2^64 values and uses only 32-bit constants; decided by CBMC on the real foam.c / buffer.c / xfloat.c. The file-level clauses of C05 (.ao/.fm/.al equality of "
+             "written; the portable re-expression of machine integers wider than 31 bits (foamSIntReduce) denotes the same value for all 2^64 values and uses only 32-bit constants; decided by CBMC on the real foam.c / buffer.c / xfloat.c; an archive member referenced through the long-name table is found under exactly the name stored at that offset. The file-level clauses of C05 (.ao/.fm/.al equality of "
              "generated outputs, split compilation) are not decided.",
     "level": "model_checking",
     "bounds": "all 16-bit / 8-bit / 1-bit values, all float and double bit patterns, character arrays of 4 (quick) / 8 "
@@ -40,4 +40,9 @@ def queries(ctx, extra):
                         defs=["-DV_STO_PAD=1024", "-DV_STO_NOFREE", "-DV_NO_ASSERT_STUB", "-DV_NO_BUG_STUB", "-DARRN=%d" % n],
                         stubs=["stubs.c", "stubs_print.c"], unwind=n + 4, object_bits=14, timeout=900, mem_gb=10, tiers=tiers,
                         group="FOAM codec", bound="character arrays of %d arbitrary characters" % n))
+    # archives: a member whose name is kept in the long-name table is found under that name (archive.c:arRdItemArch)
+    qs.append(Query(name="ar_longname", harness="c17_archive.c", entry="h_ar_longname", stubs=["stubs.c", "stubs_print.c"],
+                    defs=["-DV_NO_STO_STUBS", "-DINDIRECT"], unwind=18, unwindset=["body_h_ar_longname.1:46"], timeout=600, mem_gb=10,
+                    group="archive member names",
+                    bound="one GNU-format member header with name field /K, every K and every name table of 12 characters"))
     return qs
